@@ -177,7 +177,15 @@ fn c06_read(ctx: &mut Ctx, recs: &[Rec], ser: Ser, container: &str, bytes: &[u8]
         ctx.scratch.clone()
     };
     let path = format!("{}/c06{}{}", dir, suffix, if gz { ".gz" } else { "" });
-    std::fs::write(&path, bytes).expect("write input");
+    let _ = std::fs::remove_file(&path);
+    if case_no % 7 == 3 {
+        // the name is a symbolic link to the file, which lives under another (suffix-less) name
+        let real = format!("{}/c06-real-data", ctx.scratch);
+        std::fs::write(&real, bytes).expect("write input");
+        std::os::unix::fs::symlink(&real, &path).expect("symlink");
+    } else {
+        std::fs::write(&path, bytes).expect("write input");
+    }
     ctx.journal.note(|| format!("C06 {:?} ser={} container={} argv={:?}", recs, ser.code(), container, argv));
     ctx.rep.evaluations += 1;
     let size = bytes.len();
@@ -712,6 +720,12 @@ fn read_counts(path: &str) -> Result<Vec<(String, u64)>, String> {
 
 /// one complete run of the counter compared with the model; shared with the scheduler harness
 pub fn check_counter_output(dir: &str, records: &[Vec<u8>], k: usize, acgt: bool, delete: bool, grid: (u64, u64)) -> Result<(), (String, String)> {
+    check_counter_output_in(dir, records, k, acgt, delete, grid, true)
+}
+
+/// `whole_dir`: no temp file at all may be left after merge(true); otherwise only the files of this run's own
+/// chunk x partition grid are judged (files of an earlier run outside that grid are not this run's business)
+pub fn check_counter_output_in(dir: &str, records: &[Vec<u8>], k: usize, acgt: bool, delete: bool, grid: (u64, u64), whole_dir: bool) -> Result<(), (String, String)> {
     let exp = model::counts(records, k);
     let lines = read_counts(&format!("{dir}/kmers.counts")).map_err(|e| ("unparsable-counts".to_string(), e))?;
     let mut got: BTreeMap<u128, u64> = BTreeMap::new();
@@ -745,7 +759,7 @@ pub fn check_counter_output(dir: &str, records: &[Vec<u8>], k: usize, acgt: bool
             }
         }
     }
-    if delete {
+    if delete && whole_dir {
         for e in std::fs::read_dir(dir).map_err(|e| ("io".to_string(), e.to_string()))? {
             let name = e.unwrap().file_name().to_string_lossy().to_string();
             if name.starts_with("temp_kmers") {
@@ -766,6 +780,16 @@ fn c07_run(ctx: &mut Ctx, records: &[Vec<u8>], k: usize, threads: usize, mem: f6
         for e in rd.flatten() {
             if e.file_name().to_string_lossy().starts_with("temp_kmers") {
                 let _ = std::fs::remove_file(e.path());
+            }
+        }
+    }
+    // every third case (by content, so that a replay does the same) finds temp chunk files of an earlier, different
+    // run in the directory: a grid of 24 partitions x 6 chunks holding two k-mers that are not in the input
+    let stale = (records.len() + records.iter().map(|r| r.len()).sum::<usize>() + threads + k) % 3 == 0;
+    if stale {
+        for p in 0..24 {
+            for c in 0..6 {
+                std::fs::write(format!("{dir}/temp_kmers.part_{p}_chunk_{c}"), b"1\t5\n2\t9\n").unwrap();
             }
         }
     }
@@ -790,8 +814,8 @@ fn c07_run(ctx: &mut Ctx, records: &[Vec<u8>], k: usize, threads: usize, mem: f6
         Ok(g) => g,
     };
     ctx.rep.outcomes.insert(format!("chunks={} parts={}", grid.0, grid.1));
-    if let Err((key, msg)) = check_counter_output(&dir, records, k, acgt, delete, grid) {
-        return viol(ctx, &key, size, format!("{what} (chunks={}, parts={}): {msg}", grid.0, grid.1), argv);
+    if let Err((key, msg)) = check_counter_output_in(&dir, records, k, acgt, delete, grid, !stale) {
+        return viol(ctx, &key, size, format!("{what} (chunks={}, parts={}){}: {msg}", grid.0, grid.1, if stale { ", temp files of an earlier run in the directory" } else { "" }), argv);
     }
     if records.iter().any(|r| r.len() >= k) {
         ctx.rep.nontrivial += 1;
